@@ -2,6 +2,7 @@ package props
 
 import (
 	"fmt"
+	"sort"
 	"strings"
 
 	bexpr "github.com/hashicorp/go-bexpr"
@@ -61,8 +62,12 @@ func c11Inputs(c *mon.Ctx, idx int) (s string, pathological bool, kind string) {
 	case 4: // invalid: mutated derivations
 		rd := &xgen.Renderer{R: r, MaxRedundantParens: 1}
 		return c15Mutate(r, rd.Render(xgen.RandTree(r, 1+r.Intn(3)))), false, "mutated"
-	default: // chains
+	default: // chains, and long inputs whose error is found early
 		n := 1 + r.Intn(40)
+		if (idx/6)%2 == 0 {
+			tail := strings.Repeat([]string{"z", " z", "(", "\"", " and", "1 "}[r.Intn(6)], 300+r.Intn(3000))
+			return c10Corpus[r.Intn(len(c10Corpus))] + " " + tail, false, "long-tail"
+		}
 		return "a == 1" + strings.Repeat(" and b != 2", n), false, "chain"
 	}
 }
@@ -155,6 +160,18 @@ func c11Run(c *mon.Ctx, idx int) {
 			budgets = append(budgets, n)
 		}
 	}
+	// budgets above N, related to the input length rather than to N
+	for _, n := range []uint64{2 * n0, uint64(len(s)) - 1, uint64(len(s)), uint64(len(s)) + 1, (n0 + uint64(len(s))) / 2, 3 * n0, 10 * n0} {
+		if n >= 1 && n < 1<<40 {
+			budgets = append(budgets, n)
+		}
+	}
+	if exhaustive {
+		for n := uint64(1); n < 1<<22; n *= 2 {
+			budgets = append(budgets, n)
+		}
+	}
+	sort.Slice(budgets, func(i, j int) bool { return budgets[i] < budgets[j] })
 	threshold := uint64(0)
 	for _, n := range budgets {
 		r, herr := c11Parse(s, n)
@@ -252,7 +269,7 @@ func init() {
 		NumCases: func(tier string) int { return tierN(tier, 1200, 40000) },
 		Run:      c11Run,
 		Required: func(tier string) []string {
-			return []string{"inputs", "valid_inputs", "invalid_inputs", "pathological_inputs", "pathological_rejected_within_budget", "rejected_below_threshold", "inputs_with_every_budget", "kind:nested-balanced", "kind:nested-unbalanced"}
+			return []string{"inputs", "valid_inputs", "invalid_inputs", "pathological_inputs", "pathological_rejected_within_budget", "rejected_below_threshold", "inputs_with_every_budget", "kind:nested-balanced", "kind:nested-unbalanced", "kind:long-tail", "kind:chain"}
 		},
 	})
 }
